@@ -229,27 +229,27 @@ def specUpd (s : PState ν) (ps : List (Param ν)) : PState ν :=
       tic := ((lastOf (isCv .tic) ps).map (fun p => p.v.fltD)).getD s.spectrum.tic } }
 
 theorem cvSpectrum_ok (cfg : Config) (s : PState ν) (p : Param ν) (h : p.okSpectrum = true)
-    (ht : p.ticZero = false) (hl : p.c = .msLevel → allows cfg p.v.natD = true) :
+    (hl : p.c = .msLevel → allows cfg p.v.natD = true) :
     cvSpectrum cfg s p.c p.v = .ok (specStep s p) := by
   obtain ⟨c, v, u⟩ := p
   cases c <;> cases v <;>
     simp_all [Param.okSpectrum, Val.okFloat, Val.okU8, cvSpectrum, specStep, isCv, isRepr, Val.float, Val.u8,
-      Val.fltD, Val.natD, Param.ticZero]
+      Val.fltD, Val.natD]
   all_goals
     simp only [allows] at hl
     cases hf : cfg.filter <;> simp_all
 
 theorem run_spec_cvs (cfg : Config) (ps : List (Param ν)) (s : PState ν) (hs : s.state = some .spectrum)
-    (hok : ∀ p ∈ ps, p.okSpectrum = true) (ht : ∀ p ∈ ps, p.ticZero = false)
+    (hok : ∀ p ∈ ps, p.okSpectrum = true)
     (hl : ∀ p ∈ ps, p.c = .msLevel → allows cfg p.v.natD = true) :
     run cfg s (ps.map Param.ev) = .ok (specUpd s ps, []) := by
   induction ps generalizing s with
   | nil => simp [run, specUpd, lastOf]
   | cons p ps ih =>
     have hm := List.mem_cons_self (a := p) (l := ps)
-    simp only [List.map_cons, run, Param.ev, step, onCv, hs, cvSpectrum_ok cfg s p (hok p hm) (ht p hm) (hl p hm)]
+    simp only [List.map_cons, run, Param.ev, step, onCv, hs, cvSpectrum_ok cfg s p (hok p hm) (hl p hm)]
     rw [ih (specStep s p) (by simp [specStep, hs]) (fun q hq => hok q (List.mem_cons_of_mem _ hq))
-      (fun q hq => ht q (List.mem_cons_of_mem _ hq)) (fun q hq => hl q (List.mem_cons_of_mem _ hq))]
+      (fun q hq => hl q (List.mem_cons_of_mem _ hq))]
     simp only [specUpd, lastOf_cons_getD, specStep, Option.toList, List.nil_append]
 
 def precStep (s : PState ν) (p : Param ν) : PState ν :=
@@ -502,16 +502,15 @@ theorem run_arrs (cfg : Config) (as : List (ArrEl ν)) (s : PState ν) (hs : s.s
 
 /-- a `<spectrum>` element the level filter lets through, from any state the reader can be in between spectra -/
 theorem elem_kept (cfg : Config) (e : SpecEl ν) (c d : Bool) (k : Option Kind)
-    (hwf : e.wf = true) (htic : e.noTicZero = true)
+    (hwf : e.wf = true)
     (hall : ∀ p ∈ e.params, p.c = .msLevel → allows cfg p.v.natD = true)
     (hlv : allows cfg ((natOf .msLevel e.params).getD 0) = true) :
     ∃ c' d' k' sp, denote cfg e = some sp ∧
       run cfg (PState.fresh c d k) e.events = .ok (PState.fresh c' d' k', [sp]) := by
   simp only [SpecEl.wf, Bool.and_eq_true, List.all_eq_true, decide_eq_true_eq] at hwf
   obtain ⟨⟨⟨⟨hps, _⟩, hsc⟩, hpr⟩, har⟩ := hwf
-  simp only [SpecEl.noTicZero, List.all_eq_true, Bool.not_eq_true'] at htic
   simp only [SpecEl.events, run, step, onStart, transStart, PState.fresh]
-  rw [run_append, run_spec_cvs cfg e.params _ rfl hps htic hall]
+  rw [run_append, run_spec_cvs cfg e.params _ rfl hps hall]
   simp only
   rw [run_append, run_scans cfg e.scans _ rfl hsc]
   simp only
@@ -605,7 +604,7 @@ theorem run_dead (cfg : Config) (evs : List (Event ν)) (s : PState ν) (hs : s.
     exact ⟨s2, by simp [run, e1, e2], hs2, hsp2.trans hsp1⟩
 
 theorem params_drop (cfg : Config) (f : Nat) (hf : cfg.filter = some f) (ps : List (Param ν)) (s : PState ν)
-    (hs : s.state = some .spectrum) (hok : ∀ p ∈ ps, p.okSpectrum = true) (ht : ∀ p ∈ ps, p.ticZero = false)
+    (hs : s.state = some .spectrum) (hok : ∀ p ∈ ps, p.okSpectrum = true)
     (hne : ∀ p ∈ ps, p.c = .msLevel → p.v.natD ≠ f) (hex : ∃ p ∈ ps, p.c = .msLevel) :
     ∃ s', run cfg s (ps.map Param.ev) = .ok (s', []) ∧ s'.state = none ∧ s'.spectrum.level ≠ f := by
   induction ps generalizing s with
@@ -637,11 +636,11 @@ theorem params_drop (cfg : Config) (f : Nat) (hf : cfg.filter = some f) (ps : Li
         | inl h => subst h; exact absurd hqc hc
         | inr h => exact ⟨q, h, hqc⟩
       obtain ⟨s', hr, h1, h2⟩ := ih (specStep s p) (by simp [specStep, hs])
-        (fun q hq => hok q (List.mem_cons_of_mem _ hq)) (fun q hq => ht q (List.mem_cons_of_mem _ hq))
+        (fun q hq => hok q (List.mem_cons_of_mem _ hq))
         (fun q hq => hne q (List.mem_cons_of_mem _ hq)) hex'
       refine ⟨s', ?_, h1, h2⟩
       simp only [List.map_cons, run, Param.ev, step, onCv, hs,
-        cvSpectrum_ok cfg s p (hok p hm) (ht p hm) (fun h => absurd h hc), hr, Option.toList, List.nil_append]
+        cvSpectrum_ok cfg s p (hok p hm) (fun h => absurd h hc), hr, Option.toList, List.nil_append]
 
 theorem lastOf_mem (f : Cv → Bool) (ps : List (Param ν)) (q : Param ν) (h : lastOf f ps = some q) :
     q ∈ ps ∧ f q.c = true := by
@@ -716,7 +715,7 @@ theorem lastOf_none_of_forall (f : Cv → Bool) (ps : List (Param ν)) (h : ∀ 
 /-- an element without any `ms level` param under a filter other than 0: read to the end (arrays skipped),
     never emitted -/
 theorem elem_nolevel_dropped (cfg : Config) (e : SpecEl ν) (c d : Bool) (k : Option Kind) (f : Nat)
-    (hwf : e.wf = true) (htic : e.noTicZero = true) (hno : ∀ p ∈ e.params, p.c ≠ .msLevel)
+    (hwf : e.wf = true) (hno : ∀ p ∈ e.params, p.c ≠ .msLevel)
     (hf : cfg.filter = some f) (hne : f ≠ 0) :
     ∃ c' d' k', denote cfg e = none ∧
       run cfg (PState.fresh c d k) e.events = .ok (PState.fresh c' d' k', []) := by
@@ -725,12 +724,11 @@ theorem elem_nolevel_dropped (cfg : Config) (e : SpecEl ν) (c d : Bool) (k : Op
       Option.map_none]
   simp only [SpecEl.wf, Bool.and_eq_true, List.all_eq_true, decide_eq_true_eq] at hwf
   obtain ⟨⟨⟨⟨hps, _⟩, hsc⟩, hpr⟩, har⟩ := hwf
-  simp only [SpecEl.noTicZero, List.all_eq_true, Bool.not_eq_true'] at htic
   have hd : denote cfg e = none := by
     have : ((0 : Nat) != f) = true := by simpa using (Ne.symm hne)
     simp [denote, hnat, hf, this]
   simp only [SpecEl.events, run, step, onStart, transStart, PState.fresh]
-  rw [run_append, run_spec_cvs cfg e.params _ rfl hps htic (fun p hp hc => absurd hc (hno p hp))]
+  rw [run_append, run_spec_cvs cfg e.params _ rfl hps (fun p hp hc => absurd hc (hno p hp))]
   simp only
   rw [run_append, run_scans cfg e.scans _ rfl hsc]
   simp only
@@ -785,10 +783,10 @@ def DeclaresLevel (e : SpecEl ν) (lv : Nat) : Prop :=
 
 /-- well-formed spectrum element over the supported vocabulary: schema child order (by the type
 `SpecEl`), every value the reader reads parses, every array re-declares compression / data type /
-kind and its payload decodes, at most one `ms level` param — possibly none — (`SpecEl.wf`), and no
-`total ion current` param is zero (the recorded defect) -/
+kind and its payload decodes, at most one `ms level` param — possibly none — (`SpecEl.wf`). A `total
+ion current` of 0 is not excluded (it was, until finding C16-tic-zero was repaired). -/
 def WellFormed (e : SpecEl ν) : Prop :=
-  e.wf = true ∧ e.noTicZero = true
+  e.wf = true
 
 theorem natOf_of_declares (e : SpecEl ν) (lv : Nat) (h : DeclaresLevel e lv) :
     natOf .msLevel e.params = some lv := by
@@ -803,17 +801,16 @@ theorem natOf_of_declares (e : SpecEl ν) (lv : Nat) (h : DeclaresLevel e lv) :
     exact hall q hm (by simpa [isCv] using hf)
 
 theorem elem_dropped (cfg : Config) (e : SpecEl ν) (c d : Bool) (k : Option Kind) (f lv : Nat)
-    (hwf : e.wf = true) (htic : e.noTicZero = true) (hlv : DeclaresLevel e lv)
+    (hwf : e.wf = true) (hlv : DeclaresLevel e lv)
     (hf : cfg.filter = some f) (hne : lv ≠ f) :
     ∃ c' d' k', denote cfg e = none ∧
       run cfg (PState.fresh c d k) e.events = .ok (PState.fresh c' d' k', []) := by
   have hnat := natOf_of_declares e lv hlv
   simp only [SpecEl.wf, Bool.and_eq_true, List.all_eq_true, decide_eq_true_eq] at hwf
   obtain ⟨⟨⟨⟨hps, _⟩, _⟩, _⟩, _⟩ := hwf
-  simp only [SpecEl.noTicZero, List.all_eq_true, Bool.not_eq_true'] at htic
   obtain ⟨s1, hr1, hs1, hl1⟩ := params_drop cfg f hf e.params
     (⟨some .spectrum, c, d, k, { (Spectrum.blank : Spectrum ν) with id := e.id }, Precursor.blank, none, none, []⟩)
-    rfl hps htic (fun p hp hc => by rw [hlv.2 p hp hc]; exact hne) hlv.1
+    rfl hps (fun p hp hc => by rw [hlv.2 p hp hc]; exact hne) hlv.1
   obtain ⟨s2, hr2, hs2, hsp2⟩ := run_dead cfg _ s1 hs1 (sections_noSpec e)
   refine ⟨s2.compression, s2.dtype64, s2.kind, ?_, ?_⟩
   · simp only [denote, hnat, hf, Option.getD_some]
@@ -832,7 +829,7 @@ theorem elem_dropped (cfg : Config) (e : SpecEl ν) (c d : Bool) (k : Option Kin
 /-- one well-formed element, from any state the reader can be in between spectra -/
 theorem elem_faithful (cfg : Config) (e : SpecEl ν) (c d : Bool) (k : Option Kind) (h : WellFormed e) :
     ∃ c' d' k', run cfg (PState.fresh c d k) e.events = .ok (PState.fresh c' d' k', (denote cfg e).toList) := by
-  obtain ⟨hwf, htic⟩ := h
+  have hwf : e.wf = true := h
   have hcount : (e.params.filter (fun p => p.c == .msLevel)).length ≤ 1 := by
     simp only [SpecEl.wf, Bool.and_eq_true, decide_eq_true_eq] at hwf
     exact hwf.1.1.1.2
@@ -842,7 +839,7 @@ theorem elem_faithful (cfg : Config) (e : SpecEl ν) (c d : Bool) (k : Option Ki
       simp only [natOf, lastOf_none_of_forall (isCv .msLevel) e.params (fun p hp => by simpa [isCv] using hno p hp),
         Option.map_none]
     by_cases ha : allows cfg 0 = true
-    · obtain ⟨c', d', k', sp, h1, h2⟩ := elem_kept cfg e c d k hwf htic
+    · obtain ⟨c', d', k', sp, h1, h2⟩ := elem_kept cfg e c d k hwf
         (fun p hp hc => absurd hc (hno p hp)) (by simpa [hnat] using ha)
       exact ⟨c', d', k', by rw [h1]; exact h2⟩
     · cases hf : cfg.filter with
@@ -850,19 +847,19 @@ theorem elem_faithful (cfg : Config) (e : SpecEl ν) (c d : Bool) (k : Option Ki
       | some f =>
         have hne : f ≠ 0 := by
           intro h0; apply ha; simp [allows, hf, h0]
-        obtain ⟨c', d', k', h1, h2⟩ := elem_nolevel_dropped cfg e c d k f hwf htic hno hf hne
+        obtain ⟨c', d', k', h1, h2⟩ := elem_nolevel_dropped cfg e c d k f hwf hno hf hne
         exact ⟨c', d', k', by rw [h1]; exact h2⟩
   · have hlv : DeclaresLevel e lv := hlv
     have hnat := natOf_of_declares e lv hlv
     by_cases ha : allows cfg lv = true
-    · obtain ⟨c', d', k', sp, h1, h2⟩ := elem_kept cfg e c d k hwf htic
+    · obtain ⟨c', d', k', sp, h1, h2⟩ := elem_kept cfg e c d k hwf
         (fun p hp hc => by rw [hlv.2 p hp hc]; exact ha) (by simpa [hnat] using ha)
       exact ⟨c', d', k', by rw [h1]; exact h2⟩
     · cases hf : cfg.filter with
       | none => simp [allows, hf] at ha
       | some f =>
         have hne : lv ≠ f := by simpa [allows, hf] using ha
-        obtain ⟨c', d', k', h1, h2⟩ := elem_dropped cfg e c d k f lv hwf htic hlv hf hne
+        obtain ⟨c', d', k', h1, h2⟩ := elem_dropped cfg e c d k f lv hwf hlv hf hne
         exact ⟨c', d', k', by rw [h1]; exact h2⟩
 
 theorem doc_faithful (cfg : Config) (els : List (SpecEl ν)) (c d : Bool) (k : Option Kind)
@@ -969,7 +966,7 @@ theorem step_errors (cfg : Config) (s : PState ν) (ev : Event ν) (e : Err) (h 
             | ok n => rw [hv] at hr; simp at hr
           · cases hv : v.float with
             | error y => rw [hv] at hr; simp at hr; subst hr; rcases hval y hv with h | h <;> simp [h]
-            | ok n => rw [hv] at hr; simp at hr; split at hr <;> simp at hr
+            | ok n => rw [hv] at hr; simp at hr
         · -- scan
           unfold cvScan at hr
           cases c <;> simp at hr <;> try (simp_all; done)
@@ -1064,7 +1061,7 @@ def SpecElU.events (e : SpecElU ν) : List (Event ν) :=
   .start .spectrum (some e.id) none :: (e.children.flatMap Child.events ++ [.stop .spectrum])
 
 def Child.wf : Child ν → Bool
-  | .param p => p.okSpectrum && !p.ticZero
+  | .param p => p.okSpectrum
   | .scan ps => ps.all Param.okScan
   | .prec p => p.wf
   | .arr a => a.wf
@@ -1118,10 +1115,10 @@ theorem child_run (cfg : Config) (hf : cfg.filter = none) (ch : Child ν) (a : A
   have hal : ∀ lv, allows cfg lv = true := by intro lv; simp [allows, hf]
   cases ch with
   | param p =>
-    simp only [Child.wf, Bool.and_eq_true, Bool.not_eq_true'] at hwf
+    simp only [Child.wf] at hwf
     refine ⟨c, d, k, ?_⟩
     simp only [Child.events, run, Param.ev, step, onCv, Acc.toState,
-      cvSpectrum_ok cfg _ p hwf.1 hwf.2 (fun _ => hal _)]
+      cvSpectrum_ok cfg _ p hwf (fun _ => hal _)]
     rfl
   | scan ps =>
     simp only [Child.wf, List.all_eq_true] at hwf
@@ -1355,8 +1352,7 @@ intensities divided by the element's own noise array when S/N is requested for i
 one precursor per `<precursor>` with a non-zero selected-ion m/z carrying its own m/z, intensity,
 charge, spectrumRef, isolation window `Da(-lower, upper)` and ion mobility (its own, else — for the
 first precursor only — the one announced in the element's `<scan>`). Never an error.
-Hypothesis `WellFormed` excludes `total ion current = 0` (recorded defect: see
-`tic_zero_blank_spectrum`). -/
+No side condition on the total ion current (see `tic_zero_read_as_encoded`). -/
 theorem faithful (cfg : Config) (els : List (SpecEl ν)) (h : ∀ e ∈ els, WellFormed e) :
     parse cfg (els.flatMap SpecEl.events) = .ok (denoteDoc cfg els) := by
   obtain ⟨c, d, k, hr⟩ := doc_faithful cfg els false true none h
@@ -1394,8 +1390,8 @@ def exBare : SpecEl Int :=
     precs := [{ ref := none, iso := [], ions := [[⟨.selMz, .nat 500, .absent⟩]], act := [] }], arrays := [] }
 
 
-theorem exRich_wf : WellFormed exRich := ⟨by decide, by decide⟩
-theorem exBare_wf : WellFormed exBare := ⟨by decide, by decide⟩
+theorem exRich_wf : WellFormed exRich := (by decide : exRich.wf = true)
+theorem exBare_wf : WellFormed exBare := (by decide : exBare.wf = true)
 
 /-- non-vacuity of `faithful` / `locality`: the hypotheses hold for a rich element followed by a
 bare one, and the bare one's spectrum shows none of the rich one's fields -/
@@ -1413,10 +1409,6 @@ example : parse (ν := Int) {} ([exRich, exBare].flatMap SpecEl.events) = .ok (d
 
 /-- the level filter removes the element, S/N at another level leaves it alone -/
 example : denoteDoc (ν := Int) { filter := some 1 } [exRich, exBare] = [] := by decide
-
-def exTicZero : SpecEl Int :=
-  { id := "zero", params := [⟨.msLevel, .nat 2, .absent⟩, ⟨.centroid, .absent, .absent⟩, ⟨.tic, .nat 0, .absent⟩],
-    scans := [], precs := [], arrays := [] }
 
 /-- the MS level an element declares (0 when it declares none, as in the code) -/
 def levelOf (e : SpecEl ν) : Nat := (natOf .msLevel e.params).getD 0
@@ -1451,7 +1443,7 @@ theorem level_filter (cfg : Config) (l : Nat) (els : List (SpecEl ν)) (h : ∀ 
 def exMs1 : SpecEl Int :=
   { id := "ms1", params := [⟨.msLevel, .nat 1, .absent⟩], scans := [[⟨.invMobility, .nat 9, .absent⟩]], precs := [],
     arrays := [] }
-theorem exMs1_wf : WellFormed exMs1 := ⟨by decide, by decide⟩
+theorem exMs1_wf : WellFormed exMs1 := (by decide : exMs1.wf = true)
 
 example : (parse (ν := Int) { filter := some 2 } ([exRich, exMs1, exBare].flatMap SpecEl.events)).toOption.map
     (fun sps => sps.map (·.id)) = some ["scan=1", "scan=2"] := by decide
@@ -1534,7 +1526,7 @@ def exNoLevel : SpecEl Int :=
   { id := "nolevel", params := [⟨.centroid, .absent, .absent⟩], scans := [[⟨.scanStart, .nat 3, .minutes⟩]], precs := [],
     arrays := [{ params := [⟨.mzArray, .absent, .absent⟩, ⟨.f32, .absent, .absent⟩, ⟨.noCompression, .absent, .absent⟩],
                  payload := .data [7, 0, 0, 0] none }] }
-theorem exNoLevel_wf : WellFormed exNoLevel := ⟨by decide, by decide⟩
+theorem exNoLevel_wf : WellFormed exNoLevel := (by decide : exNoLevel.wf = true)
 example : denote (ν := Int) {} exNoLevel = some ⟨"nolevel", 0, true, 0, 3, 0, [], [7], []⟩ ∧
     denote (ν := Int) { filter := some 2 } exNoLevel = none ∧
     (parse (ν := Int) { filter := some 2 } ([exNoLevel, exBare].flatMap SpecEl.events)).toOption.map
@@ -1605,11 +1597,26 @@ theorem child_order_matters :
     (parse {} (doc (level :: prec ++ scan))).toOption.map (fun sps => sps.map (fun sp => sp.precursors.map (·.mobility)))
       = some [[none]] := by decide
 
-/-- **C16.tic_zero_blank_spectrum** — the full-strength statement (without the `noTicZero` hypothesis)
-is FALSE of the code as it is: an MS2 element with `total ion current = 0` is read as a blank
-spectrum (id "", level 0) instead of the encoded one. Concrete witness; recorded as a known finding. -/
-theorem tic_zero_blank_spectrum :
-    exTicZero.wf = true ∧ (parse {} exTicZero.events).toOption = some [Spectrum.blank] ∧
-      denote {} exTicZero = some ⟨"zero", 2, true, 0, 0, 0, [], [], []⟩ := by decide
+/-- an MS2 element whose `total ion current` is 0, with a precursor and an (empty) m/z array after it -/
+def exTicZero : SpecEl Int :=
+  { id := "zero", params := [⟨.msLevel, .nat 2, .absent⟩, ⟨.centroid, .absent, .absent⟩, ⟨.tic, .nat 0, .absent⟩],
+    scans := [[⟨.scanStart, .nat 120, .seconds⟩]],
+    precs := [{ ref := some "scan=1", iso := [], ions := [[⟨.selMz, .nat 500, .absent⟩]], act := [] }],
+    arrays := [{ params := [⟨.mzArray, .absent, .absent⟩, ⟨.f32, .absent, .absent⟩, ⟨.noCompression, .absent, .absent⟩],
+                 payload := .empty }] }
+
+/-- **C16.tic_zero_read_as_encoded** — (replaces the former counter-example `tic_zero_blank_spectrum`,
+which was true of the code until the repair of finding C16-tic-zero.) A `total ion current` of 0 is
+an ordinary value: such an element is well-formed, so `faithful` / `locality` apply to it without any
+side condition, and it is read as encoded — its own id, level, representation, scan time and
+precursor, TIC 0 — not as the blank spectrum (id "", level 0) the old code returned. -/
+theorem tic_zero_read_as_encoded :
+    WellFormed exTicZero ∧ exTicZero.noTicZero = false ∧
+    (parse {} exTicZero.events).toOption =
+      some [⟨"zero", 2, true, 0, 2, 0, [⟨500, none, none, some "scan=1", none, none⟩], [], []⟩] ∧
+    (parse {} exTicZero.events).toOption ≠ some [Spectrum.blank] ∧
+    (parse { filter := some 2, sn := some 2 } (exBare.events ++ exTicZero.events ++ exBare.events)).toOption.map
+      (fun sps => sps.map (·.id)) = some ["scan=2", "zero", "scan=2"] := by
+  refine ⟨(by decide : exTicZero.wf = true), by decide, by decide, by decide, by decide⟩
 
 end Sage.C16
